@@ -84,7 +84,8 @@ class Check:
         role = r.get('role')
         if not role: return None
         for e in s.known:
-            if all(e.get(k) == role.get(k) for k in ('indicator', 'family', 'kind')):
+            if all(e.get(k) == role.get(k) for k in ('indicator', 'family', 'kind')) and \
+                    all(e[k] == role.get(k) for k in e if k not in ('property', 'indicator', 'family', 'kind', 'what')):
                 return e
         return None
 
